@@ -458,6 +458,35 @@ def dr_results_labels_frf(seed, quick):
                         return ev, dict(what="form_extreme (%s), row %r: %s" % (sname, lbl, prob), order=order)
                 if list(env.cases) != order:
                     return ev, dict(what="form_extreme (%s): cases %s" % (sname, list(env.cases)), order=order)
+    # (a2) load cases recovered OUT OF SEQUENCE (case number j given explicitly): labels, per-case columns and histories belong to case j whatever the call order
+    for order in ([0, 1, 2, 3], [2, 0, 3, 1], [3, 2, 1, 0], [1, 3, 0, 2]):
+        nrow_ = 3
+        resps_ = [(1 + 0.5 * j_) * rng.randn(nrow_, T.size) for j_ in range(4)]
+        drdefs = cla.DR_Def(dict(se=0, uf_reds=UF))
+        drdefs.add(name="LTM", labels=["r%d" % i_ for i_ in range(nrow_)], drfunc="sol.a", units="N", srspv=None, histpv="all")
+        DR_ = cla.DR_Event(); DR_.add(None, drdefs)
+        res_ = DR_.prepare_results("verif", "EV")
+        with warnings.catch_warnings():
+            warnings.simplefilter("ignore")
+            for j_ in order:
+                res_.time_data_recovery({UF: SimpleNamespace(a=resps_[j_], v=resps_[j_], d=resps_[j_], t=T, h=T[1] - T[0])}, None, "case %d" % j_, DR_, 4, j_)
+        ev += 1
+        cat_ = res_["LTM"]
+        st_ = np.array(resps_)
+        prob = None
+        if list(cat_.cases) != ["case %d" % j_ for j_ in range(4)]:
+            prob = "case labels %s are not in case-number order" % (list(cat_.cases),)
+        elif not (np.allclose(cat_.mx, st_.max(axis=2).T) and np.allclose(cat_.mn, st_.min(axis=2).T)):
+            prob = "per-case max/min column j is not that of case j"
+        elif not all(np.array_equal(cat_.hist[j_], resps_[j_]) for j_ in range(4)):
+            prob = "stored history j is not that of case j"
+        else:
+            for i_ in range(nrow_):
+                jb_ = int(np.argmax(st_.max(axis=2)[:, i_]))
+                if cat_.maxcase[i_] != "case %d" % jb_ or not np.isclose(cat_.ext[i_, 0], st_[jb_, i_].max()):
+                    prob = "row %d: maximum %g attributed to %r, it occurs in case %d" % (i_, cat_.ext[i_, 0], cat_.maxcase[i_], jb_)
+        if prob:
+            return ev, dict(what="time_data_recovery with cases recovered in the order %s: %s" % (order, prob))
     # (b) frequency-response recovery with NaNs and ties
     F = np.arange(0.0, 20.0, 1.0)
     for rep in range(3 if quick else 12):
@@ -537,6 +566,7 @@ def run(tier, seed):
     one, sym = (1.0, 1.0, 1.0, 1.0), ("s", "s", "s", "s")
     ufcases = [(kf, mf, seq) for kf in ("diag", "full") for mf in ("given", "none")
                for seq in ([sym], [one, (1.0, 1.0, 1.25, 1.0)], [(1.0, 1.0, 1.25, 1.0), one], [sym, one, sym], [one, one])]
+    ufcases += [(kf, mf, seq, "rf-interior") for kf in ("diag", "full") for mf in ("given", "none") for seq in ([sym], [one, sym], [one, one])]
     uouts = report.pool().map(apply_uf_case, ufcases, chunksize=1)
     un, ufails = sum(o[1] for o in uouts), [dict(case=dict(k=o[0][0], m=o[0][1], calls=str(o[0][2])), **f) for o in uouts for f in o[2]]
     for f_ in [x for x in ufails if x.get("undecided")]:
@@ -619,24 +649,26 @@ def apply_uf_case(args):
     """kform in {'diag', 'full'}; ufs: list of uf tuples applied in order on ONE shared cache; each result is compared with the
     documented formulas (computed independently) -- which is also what a cache-free call must give."""
     import sympy as sp
-    kform, mform, ufs = args
+    kform, mform, ufs = args[:3]
+    interior = len(args) > 3 and args[3] == "rf-interior"       # the residual-flexibility mode between the elastic modes (the elastic partition is then not a slice)
     ev = alg.load_module(report.REPO, "pyyeti/cla/dr_event.py")
-    n, nt, nrb, rf = 4, 2, 1, [3]
+    n, nt, nrb, rf = (5 if interior else 4), 2, 1, ([2] if interior else [3])      # interior: modes rb, el, rf, el, el - the elastic set [1, 3, 4] is not evenly spaced
+    e0, e1 = (1, 3) if interior else (1, 2)
     A = sp.Matrix(n, nt, sp.symbols("a0:%d" % (n * nt), real=True))
     V = sp.Matrix(n, nt, sp.symbols("v0:%d" % (n * nt), real=True))
     D = sp.Matrix(n, nt, sp.symbols("d0:%d" % (n * nt), real=True))
-    msym = sp.symbols("m0:4", positive=True)
-    bsym = sp.symbols("b0:4", positive=True)
-    ksym = sp.symbols("k0:4", positive=True)
+    msym = sp.symbols("m0:%d" % n, positive=True)
+    bsym = sp.symbols("b0:%d" % n, positive=True)
+    ksym = sp.symbols("k0:%d" % n, positive=True)
     kc, bc, mc = sp.Symbol("kc", real=True), sp.Symbol("bc", real=True), sp.Symbol("mc", real=True)
     Km, Bm, Mm = sp.diag(*ksym), sp.diag(*bsym), (sp.eye(n) if mform == "none" else sp.diag(*msym))
     Km[0, 0] = 0
     Bm[0, 0] = 0
     if kform == "full":
-        Km[1, 2] = Km[2, 1] = kc
-        Bm[1, 2] = Bm[2, 1] = bc
+        Km[e0, e1] = Km[e1, e0] = kc
+        Bm[e0, e1] = Bm[e1, e0] = bc
         if mform != "none":
-            Mm[1, 2] = Mm[2, 1] = mc
+            Mm[e0, e1] = Mm[e1, e0] = mc
     wit = {s: sp.Rational(3 + i, 2) for i, s in enumerate(list(A) + list(V) + list(D) + list(msym) + list(bsym) + list(ksym))}
     wit.update({kc: sp.Rational(1, 3), bc: sp.Rational(1, 5), mc: sp.Rational(1, 7)})
     usym = sp.symbols("ruf euf duf suf", positive=True)
@@ -659,7 +691,7 @@ def apply_uf_case(args):
         marg = None if mform == "none" else mk(Mm, kform == "full")
         barg, karg = mk(Bm, kform == "full"), mk(Km, kform == "full")
         save = {}
-        el = [1, 2]
+        el = [1, 3, 4] if interior else [e0, e1]
         F = Mm * A + Bm * V + Km * D
         Kel = Km[el, el]
         for uf in ufs:
@@ -675,7 +707,7 @@ def apply_uf_case(args):
             ddy = -euf * Kel.inv() * (duf * avel)
             for i_, r_ in enumerate(el):
                 want_d[r_, :] = dst[i_, :] + ddy[i_, :]
-            want_d[3, :] = euf * suf * D[3, :]
+            want_d[rf[0], :] = euf * suf * D[rf[0], :]
             for nm, want in (("a", want_a), ("v", want_v), ("d", want_d)):
                 got = getattr(out, nm)
                 for i in range(n):
